@@ -134,9 +134,14 @@ End D.
 
 (* a dispatcher that answers these names as sir_call does (it may serve other names too: the stages of anonymize_io in RefIo.v) *)
 Definition sir_names : list string := ["search"; "groupdict"; "group"; "sub"; "sub_const"; "cisco_type7.using.hash"; "md5_crypt.using.hash"; "sha512_crypt.using.hash"]%string.
+(* ... on the arguments replace_matching_item passes to search and group: a pattern is VInt k, a match object (VInt k, text) *)
+Definition sir_shape (s : string) (a : pyval) : Prop :=
+  if String.eqb s "search" then exists z l, a = VList [VInt z; VStr l]
+  else if String.eqb s "group" then exists z l key, a = VList [VTuple [VInt z; VStr l]; key]
+  else True.
 Definition agrees_with_sir_call (pc : pyval -> pyval -> PyLib.res) (orc : oracle) (tbl : list item) : Prop :=
-  forall s a, In s sir_names -> pc (VFun (of_string s)) a = sir_call orc tbl (VFun (of_string s)) a.
-Lemma sir_call_agrees orc tbl : agrees_with_sir_call (sir_call orc tbl) orc tbl. Proof. intros s a _. reflexivity. Qed.
+  forall s a, In s sir_names -> sir_shape s a -> pc (VFun (of_string s)) a = sir_call orc tbl (VFun (of_string s)) a.
+Lemma sir_call_agrees orc tbl : agrees_with_sir_call (sir_call orc tbl) orc tbl. Proof. intros s a _ _. reflexivity. Qed.
 Lemma agrees_passlib pc orc tbl : agrees_with_sir_call pc orc tbl -> passlib_answers_as_the_model pc orc.
 Proof.
   intro H. destruct (sir_passlib orc tbl) as (A & B & C). split; [|split]; intros.
@@ -217,17 +222,17 @@ Theorem gen_rmi_refines pc orc tbl (groups : list (list (nat * item))) reserved 
   = Normal (VTuple [vstr out; vlook lookup']).
 Proof.
   intros Hag Hcons Horc Hbytes Huniq.
-  assert (pcall_search : forall ro l, pc (VFun (of_string "search")) (VList [ro; vstr l]) =
-            match re_of tbl ro with Some (rx, _, _) => match search l rx with Some _ => Normal (VTuple [ro; vstr l]) | None => Normal VNone end | None => Exc TypeError end)
-    by (intros; rewrite Hag by (cbn; tauto); apply call_search).
-  assert (pcall_groupdict : forall ro l, pc (VFun (of_string "groupdict")) (VList [VTuple [ro; vstr l]]) =
-            match re_of tbl ro with Some (_, _, pidx) => Normal (VDict (match pidx with Some _ => [(S_ "prefix", VNone)] | None => [] end)) | None => Exc TypeError end)
+  assert (pcall_search : forall z l, pc (VFun (of_string "search")) (VList [VInt z; vstr l]) =
+            match re_of tbl (VInt z) with Some (rx, _, _) => match search l rx with Some _ => Normal (VTuple [VInt z; vstr l]) | None => Normal VNone end | None => Exc TypeError end)
+    by (intros; rewrite Hag; [apply call_search|cbn; tauto|unfold RefJun.vstr; cbn; eauto]).
+  assert (pcall_groupdict : forall z l, pc (VFun (of_string "groupdict")) (VList [VTuple [VInt z; vstr l]]) =
+            match re_of tbl (VInt z) with Some (_, _, pidx) => Normal (VDict (match pidx with Some _ => [(S_ "prefix", VNone)] | None => [] end)) | None => Exc TypeError end)
     by (intros; rewrite Hag by (cbn; tauto); apply call_groupdict).
-  assert (pcall_group : forall ro l key, pc (VFun (of_string "group")) (VList [VTuple [ro; vstr l]; key]) = group_of tbl ro (map Z.of_N l) key)
-    by (intros; rewrite Hag by (cbn; tauto); apply call_group).
-  assert (pcall_sub : forall ro rep l, pc (VFun (of_string "sub")) (VList [ro; vstr rep; vstr l]) = sub_of tbl ro (map Z.of_N rep) (map Z.of_N l))
+  assert (pcall_group : forall z l key, pc (VFun (of_string "group")) (VList [VTuple [VInt z; vstr l]; key]) = group_of tbl (VInt z) (map Z.of_N l) key)
+    by (intros; rewrite Hag; [apply call_group|cbn; tauto|unfold RefJun.vstr; cbn; eauto]).
+  assert (pcall_sub : forall z rep l, pc (VFun (of_string "sub")) (VList [VInt z; vstr rep; vstr l]) = sub_of tbl (VInt z) (map Z.of_N rep) (map Z.of_N l))
     by (intros; rewrite Hag by (cbn; tauto); apply call_sub).
-  assert (pcall_sub_const : forall ro rep l, pc (VFun (of_string "sub_const")) (VList [ro; vstr rep; vstr l]) = sub_of tbl ro (map Z.of_N rep) (map Z.of_N l))
+  assert (pcall_sub_const : forall z rep l, pc (VFun (of_string "sub_const")) (VList [VInt z; vstr rep; vstr l]) = sub_of tbl (VInt z) (map Z.of_N rep) (map Z.of_N l))
     by (intros; rewrite Hag by (cbn; tauto); apply call_sub_const).
   pose proof (agrees_passlib pc orc tbl Hag) as Hpl. unfold rmi_need, rmi_model, gen_replace_matching_item.
   rewrite gen_split_line_refines. destruct (split_line line) as [[leading words] trailing].
